@@ -179,6 +179,51 @@ def trace (f : Flags) : List Event := traceG .repaired f [true]
 /-- The 1-epoch run of the code as it is on the pinned tree. -/
 def asIs (f : Flags) : List Event := traceG .asIs f [true]
 
+/-! ## Two-run history: a second run that re-uses the chunks of the first (`use_existing_chunks`)
+
+Run 1 is an ordinary fresh run with the chunk framework and `delete_chunks_after_training = False`
+(`run1Flags`), so it leaves `<np_chunks_path>/config.yaml`, `train_chunks/*.npz`, `val_chunks/*.npz`.
+Run 2 has `use_existing_chunks = True`, the **same** `np_chunks_path` and a **new** `save_ckpt_path`:
+
+```
+__init__ : checks that both chunk dirs hold *.npz;  OmegaConf.save(initial_config.yaml)
+           skeletons / max_height / crop size are *read from* <np_chunks_path>/config.yaml, the
+           config is not filled in, so the second save holds the supplied configuration again
+           OmegaConf.save(training_config.yaml)          -- no chunks config.yaml write
+train()  : as a fresh run, but the datasets write no chunk files
+finally  : as a fresh run: [delete_chunks_after_training] rmtree(train_chunks), rmtree(val_chunks)
+```
+-/
+
+/-- What run 1 must look like for run 2 to be valid (chunks written and kept). -/
+def run1Flags (f : Flags) : Flags := { f with fw := .npChunks, deleteChunks := false }
+
+/-- Run 2 starts in a new checkpoint directory; only the shared chunk directory carries over. -/
+def carry (fs : FS) : FS := fun p =>
+  match p with
+  | .chunksCfg | .trainChunks | .valChunks => fs p
+  | _ => none
+
+def initPhaseR (v : Version) : List Event :=
+  [.write .initialCfg (cfg .supplied (blankInit v) false),
+   .write .trainingCfg (cfg .supplied (blankInit v) false)]
+
+/-- The trace of run 2 (`use_existing_chunks = True`; only meaningful for `f.fw = .npChunks`). -/
+def traceR (v : Version) (f : Flags) (rounds : List Bool) : List Event :=
+  initPhaseR v ++ resavePhase v f ++ fitPhase v f rounds ++ finallyPhase v f
+
+/-- File system when run 2 starts, given run 1. -/
+def reuseStart (v : Version) (f1 : Flags) (r1 : List Bool) : FS :=
+  carry (fsAfter (traceG v (run1Flags f1) r1))
+
+/-- File system (run 2's checkpoint dir + the shared chunk dir) at crash point `n` of run 2. -/
+def fsReuseAt (v : Version) (f1 : Flags) (r1 : List Bool) (f2 : Flags) (r2 : List Bool) (n : Nat) : FS :=
+  fsFrom (reuseStart v f1 r1) ((traceR v f2 r2).take n)
+
+/-- … and after run 2 has finished. -/
+def fsReuseAfter (v : Version) (f1 : Flags) (r1 : List Bool) (f2 : Flags) (r2 : List Bool) : FS :=
+  fsFrom (reuseStart v f1 r1) (traceR v f2 r2)
+
 /-! ## Serialisation (driver) -/
 
 def Path.str : Path → String
